@@ -25,8 +25,15 @@ class Obj:
         self.seen_not_running = False
 
 
+# process names (any process may set its own: prctl(PR_SET_NAME), /proc/self/comm)
+# that make the stat record look as if it ended earlier / continued
+ODD_COMMS = [b"w) x y", b"a) S 1 (b", b") R 0 0 0", b"p) 1 2", b"sh (1) S 7 7", b")", b"(", b"x y",
+             b")))) 9 ((((", b"1 S 1"]
+
+
 class World:
-    def __init__(self, with_pid0=False, ncpus=4, first_tick=100):
+    def __init__(self, with_pid0=False, ncpus=4, first_tick=100, odd_comm=False):
+        self.odd_comm = odd_comm
         self.k = simk.Kernel(ncpus=ncpus)
         # first_tick=-1: the first process of the pool starts at tick 0 (its
         # start time since boot is exactly 0.0, as for early-boot processes)
@@ -46,12 +53,25 @@ class World:
         self.tick += 1
         return self.tick
 
+    def _comm(self, default):
+        if self.odd_comm and self.tick % 3:
+            return ODD_COMMS[self.tick % len(ODD_COMMS)]
+        return default
+
+    def rename(self, pid, idx):
+        """A live process changes its own name; it stays the same process."""
+        p = self.k.procs.get(pid)
+        if p is not None and pid not in (0, 1, self.k.self_pid):
+            p.comm = ODD_COMMS[idx % len(ODD_COMMS)]
+            self.events.append(("renamed", pid))
+
     def spawn(self, pid, child=False, zombie=False):
         k = self.k
         if pid in k.procs:
             return None
-        return k.spawn(pid, comm=b"p%d" % pid, ppid=k.self_pid if child else 1,
-                       starttime=self._new_start(), child=child, zombie=zombie,
+        start = self._new_start()
+        return k.spawn(pid, comm=self._comm(b"p%d" % pid), ppid=k.self_pid if child else 1,
+                       starttime=start, child=child, zombie=zombie,
                        state=b"Z" if zombie else b"S")
 
     def exit(self, pid, status=0):
@@ -79,7 +99,8 @@ class World:
         existed = pid in k.procs
         k.vanish(pid)
         self.recycled_pids.add(pid)
-        p = k.spawn(pid, comm=b"n%d" % pid, ppid=1, starttime=self._new_start(),
+        start = self._new_start()
+        p = k.spawn(pid, comm=self._comm(b"n%d" % pid), ppid=1, starttime=start,
                     zombie=zombie, state=b"Z" if zombie else b"S")
         self.events.append(("recycle", pid, "zombie" if zombie else "live", existed))
         return p
